@@ -65,6 +65,22 @@ DEFS = {
         "components": {"real": ["Result.create/update/merge and statistics", "SimulationResults add/append/merge_all/append_all", "combine_simulation_results, combine_simulation_parameters, get_pack_indexes"],
                        "fake": ["the scheduler that decides which accumulator receives an observation and the merge tree"], "stub_or_not_run": []},
     },
+    "C08": {
+        "module": "worlds.c08", "level": "exploration",
+        "stages": {
+            "quick": [{"name": "update/read histories", "n": 40000, "wall": 45, "opts": {"chunk": 200}}],
+            "thorough": [{"name": "update/read histories", "n": 5000000, "wall": 800, "opts": {"chunk": 1000}}],
+        },
+        "rule": ("plan = one channel object (plain or external-interference), K 1-4 users with unequal antennas, and 4-27 operations from randomize (channel RandomState re-seeded "
+                 "from the plan), init_from_channel_matrix, set_pathloss(matrix|None) [+ external-interference path loss], noise_var, set_post_filter, reads of every view "
+                 "(reads are operations: they populate caches) and corrupt_data / corrupt_concatenated_data with re-seeded noise. No fault kinds exist for this property. "
+                 "distinct = distinct event-log digests; non-trivial = at least two state-changing mutations"),
+        "assumptions": ["K (and the number of interference sources) is constant within a plan so that the current path loss stays meaningful, as the statement requires",
+                        "post filters are square per receiver; after a re-dimensioning mutator data is only sent once a matching post filter (or None) was set again",
+                        "private cache fields are read for the coverage measure only, never for a verdict"],
+        "components": {"real": ["MultiUserChannelMatrix", "MultiUserChannelMatrixExtInt", "util.conversion.single_matrix_to_matrix_of_matrices", "randn_c_RS"],
+                       "fake": ["operation scheduler", "seeds of the channel/noise RandomStates (public set_channel_seed/set_noise_seed)"], "stub_or_not_run": []},
+    },
 }
 
 
